@@ -11,7 +11,7 @@ T0 = dt.datetime(2020, 1, 1)
 def pl_dtype(d):
     import polars as pl
     return {"int64": pl.Int64, "float64": pl.Float64, "str": pl.Utf8, "bool": pl.Boolean,
-            "datetime": pl.Datetime("ns")}[d]
+            "datetime": pl.Datetime("us")}[d]
 
 
 def to_pl(v):
